@@ -26,15 +26,35 @@ FoldVals(arg, vs, k, c) ==
    ELSE LET v == ValueOf(arg, vs[k]) IN
         IF arg.uniq # "no" /\ Contains(c, v) THEN FoldVals(arg, vs, k + 1, c)
         ELSE FoldVals(arg, vs, k + 1, AddTo(arg.kind, c, v))
+\* ascending sequence of a finite set of integers
+RECURSIVE SetToSortedSeq(_)
+SetToSortedSeq(S) == IF S = {} THEN <<>>
+                     ELSE LET m == CHOOSE x \in S : \A y \in S : x <= y IN <<m>> \o SetToSortedSeq(S \ {m})
+\* key-value container: a well-formed pair text has a key, the separator and a number
+MapOK(raw) == MapShapeOK(raw) /\ IsIntText(MapVal(raw))
+\* the first value given for a key is the one that is kept (insertion of an existing key is ignored)
+RECURSIVE FoldMap(_, _, _)
+FoldMap(vs, k, c) == IF k > Len(vs) THEN c
+                     ELSE FoldMap(vs, k + 1, IF HasKey(c, MapKey(vs[k])) THEN c ELSE InsertByKey(c, <<MapKey(vs[k]), IntOf(MapVal(vs[k]))>>))
+RECURSIVE MapHasDup(_, _, _)
+MapHasDup(vs, k, keys) == IF k > Len(vs) THEN FALSE
+                          ELSE MapKey(vs[k]) \in keys \/ MapHasDup(vs, k + 1, keys \cup {MapKey(vs[k])})
 ContainerIntended(arg, vs) ==
-   IF IsArr(arg.kind) THEN
+   IF arg.kind = "mapsi" THEN FoldMap(vs, 1, IF arg.clear THEN <<>> ELSE arg.init)
+   ELSE IF arg.kind \in GrowBitKinds THEN
+      \* all positions given are set in (or, with unsetFlag, removed from) the initial (or cleared) content
+      LET P == {ValueOf(arg, vs[j]) : j \in 1..Len(vs)}
+          B == IF arg.clear THEN {} ELSE SeqToSet(arg.init) IN
+      SetToSortedSeq(IF arg.unset THEN B \ P ELSE B \cup P)
+   ELSE IF IsArr(arg.kind) THEN
       LET got == FoldVals(arg, vs, 1, <<>>)
           s == IF arg.sort THEN SortInts(got) ELSE got IN
       [k \in 1..3 |-> IF k <= Len(s) THEN s[k] ELSE arg.init[k]]
    ELSE IF arg.kind = "tup" THEN
       [k \in 1..3 |-> IF k <= Len(vs) THEN ConvElemAt(arg, vs[k], k - 1).v ELSE arg.init[k]]
    ELSE IF arg.kind = "bits8" THEN
-      [k \in 1..8 |-> (\E j \in 1..Len(vs) : ValueOf(arg, vs[j]) = k - 1) \/ (~arg.clear /\ arg.init[k])]
+      [k \in 1..8 |-> LET given == \E j \in 1..Len(vs) : ValueOf(arg, vs[j]) = k - 1 IN
+                      IF arg.unset THEN ~given /\ ~arg.clear /\ arg.init[k] ELSE given \/ (~arg.clear /\ arg.init[k])]
    ELSE LET base == IF arg.clear THEN <<>> ELSE arg.init
             got == FoldVals(arg, vs, 1, base) IN
         IF arg.sort /\ ~SortedKind(arg.kind) THEN SortInts(got) ELSE got
@@ -61,15 +81,35 @@ LevelValid(arg, line, a) ==
    /\ \A k \in U : Len(line[k].vals) = 0 => NumChecksOK(arg, LevelAfter(arg, line, a, k))
    /\ (arg.mix \/ (\A k \in U : Len(line[k].vals) = 0) \/ Cardinality(U) = 1)
 
+\* value arguments (DEST_VAR_VALUE) writing the variable owned by argument d: uses in line order
+ValUses(cfg, line, d) == {k \in 1..Len(line) : line[k].a \in ValGroup(cfg, d)}
+\* value of that variable in front of use k (k = Len(line) + 1: at the end)
+ValBefore(cfg, line, d, k) ==
+   LET U == {j \in ValUses(cfg, line, d) : j < k} IN
+   IF U = {} THEN cfg.args[d].init ELSE cfg.args[line[CHOOSE j \in U : \A i \in U : i <= j].a].setval
+\* "the original value of the destination variable is modified only once" (unless the check is switched off)
+ValArgOK(cfg, line, a) ==
+   \A k \in UsesIdx(line, a) : cfg.args[a].chkorig => ValBefore(cfg, line, cfg.args[a].dst, k) = cfg.args[cfg.args[a].dst].init
+\* not documented: a checked use after the variable was set to a value equal to its original value
+ValArgOpen(cfg, line, a) ==
+   \E k \in UsesIdx(line, a) : /\ cfg.args[a].chkorig
+                                /\ \E j \in ValUses(cfg, line, cfg.args[a].dst) : j < k
+                                /\ ValBefore(cfg, line, cfg.args[a].dst, k) = cfg.args[cfg.args[a].dst].init
+
 Intended(cfg, line) ==
    [a \in 1..NArgs(cfg) |->
       LET arg == cfg.args[a] IN
-      IF ~Used(line, a) THEN arg.init
+      IF arg.kind = "valint" THEN ValBefore(cfg, line, arg.dst, Len(line) + 1)
+      ELSE IF ~Used(line, a) THEN arg.init
       ELSE IF arg.kind = "flag" THEN ~arg.init
       ELSE IF arg.kind = "level" THEN LevelAfter(arg, line, a, Len(line))
       ELSE IF IsContainer(arg.kind) THEN ContainerIntended(arg, AllVals(line, a, 1))
       ELSE LET v == ValueOf(arg, line[LastUse(line, a)].vals[1]) IN
            IF arg.kind = "optint" THEN <<v>> ELSE v]
+
+\* second variable of pair arguments: its fixed value once the argument was used
+IntendedAux(cfg, line) ==
+   [a \in 1..NArgs(cfg) |-> IF ~PairOn(cfg.args[a]) THEN 0 ELSE IF Used(line, a) THEN cfg.args[a].pair.val ELSE cfg.args[a].pair.init]
 
 \* ---- validity
 CardOK(arg, nuses, nvals) ==
@@ -88,15 +128,21 @@ ArgValid(cfg, line, a) ==
    ELSE IF arg.kind = "level" THEN ~arg.depr /\ LevelValid(arg, line, a) /\ CardOK(arg, Cardinality(UsesIdx(line, a)), Len(vs))
    ELSE /\ ~arg.depr
         /\ \A k \in UsesIdx(line, a) :
-              IF arg.kind = "flag" THEN Len(line[k].vals) = 0
+              IF arg.kind \in {"flag", "valint"} THEN Len(line[k].vals) = 0
               ELSE IF IsContainer(arg.kind) THEN Len(line[k].vals) >= 1
               ELSE Len(line[k].vals) = 1
-        /\ \A k \in 1..Len(vs) : IF arg.kind = "tup" THEN k <= 3 /\ ConvElemAt(arg, vs[k], k - 1).ok ELSE ValueOK(arg, vs[k])
+        /\ \A k \in 1..Len(vs) : IF arg.kind = "tup" THEN k <= 3 /\ ConvElemAt(arg, vs[k], k - 1).ok
+                                  ELSE IF arg.kind = "mapsi" THEN MapOK(vs[k])
+                                  ELSE ValueOK(arg, vs[k])
+        /\ (arg.kind = "valint" => ValArgOK(cfg, line, a))
+        /\ (arg.kind \in GrowBitKinds => \A k \in 1..Len(vs) : ValueOf(arg, vs[k]) >= 0)
         /\ CardOK(arg, Cardinality(UsesIdx(line, a)), Len(vs))
         /\ (IsArr(arg.kind) => StoredCount(arg, vs) <= 3)
         /\ (arg.kind = "bits8" => \A k \in 1..Len(vs) : ValueOf(arg, vs[k]) >= 0 /\ ValueOf(arg, vs[k]) < 8)
-        /\ (IsContainer(arg.kind) /\ arg.uniq = "error" =>
+        /\ (IsContainer(arg.kind) /\ arg.kind # "mapsi" /\ arg.uniq = "error" =>
                ~HasDup(arg, vs, 1, IF IsArr(arg.kind) \/ arg.clear THEN <<>> ELSE arg.init))
+        /\ (arg.kind = "mapsi" /\ arg.uniq = "error" =>
+               ~MapHasDup(vs, 1, IF arg.clear THEN {} ELSE {arg.init[j][1] : j \in 1..Len(arg.init)}))
 
 \* requires/excludes in their documented, order-sensitive sense
 ConstraintsOK(cfg, line) ==
@@ -121,7 +167,8 @@ HConsOpen(cfg, line, h) ==
    LET S == SeqToSet(h.args) IN
    \/ h.k = "allOf" /\ \A a \in S : ~Used(line, a)
    \/ h.k \in {"anyOf", "oneOf"} /\ \E a \in S : Cardinality(UsesIdx(line, a)) > 1
-Open(cfg, line) == \E k \in 1..Len(cfg.hcons) : HConsOpen(cfg, line, cfg.hcons[k])
+Open(cfg, line) == \/ \E k \in 1..Len(cfg.hcons) : HConsOpen(cfg, line, cfg.hcons[k])
+                   \/ \E a \in 1..NArgs(cfg) : cfg.args[a].kind = "valint" /\ ValArgOpen(cfg, line, a)
 
 Valid(cfg, line) ==
    /\ \A a \in 1..NArgs(cfg) : ArgValid(cfg, line, a)
@@ -133,7 +180,7 @@ Valid(cfg, line) ==
 Agrees(cfg, line, words) ==
    LET r == Eval(cfg, <<>>, words) IN
    \/ Open(cfg, line) \/ Outcome(r) = "undef"
-   \/ Valid(cfg, line) /\ Outcome(r) = "ok" /\ \A a \in 1..NArgs(cfg) : r.dest[a] = Intended(cfg, line)[a]
+   \/ Valid(cfg, line) /\ Outcome(r) = "ok" /\ \A a \in 1..NArgs(cfg) : r.dest[a] = Intended(cfg, line)[a] /\ r.aux[a] = IntendedAux(cfg, line)[a]
    \/ ~Valid(cfg, line) /\ Outcome(r) = "err"
 
 \* ---------------------------------------------------------------- legal spellings (C01)
